@@ -26,7 +26,9 @@ def ohx(b):
 
 SCHEMES = ["s", "http", "a+b-c.d", "A1", "z9", "https", "http+unix", "httpx", "https.", "HTTP", "file", "files", "data",
            "dat", "urn", "mailto", "ftp", "ws", "wss", "h", "ht"]
-USERINFOS = [None, None, "", "u", "u:p", ":", "u%41", "a:b:c", "%C3%A9", "!$&'()*+,;="]
+USERINFOS = [None, None, "", "u", "u:p", ":", "u%41", "a:b:c", "%C3%A9", "!$&'()*+,;=",
+             # passwords that look like ports, user names that look like hosts
+             "admin:123456", "u:00000", ":99999", "u:1234", "u:80", "1.2.3.4", "h.example:8080"]
 # literal non-ASCII text whose UTF-8 octets alias the ASCII delimiters under `& 0x7f`
 # (AF `/`, BF `?`, A3 `#`, BA `:`, A5 `%`, AE `.`, DB `[`, DD `]`, 80 NUL): a scanner that masks,
 # truncates or sign-extends octets cuts these characters in two
@@ -584,6 +586,15 @@ def stream_history(rng, tier):
                 if not ops:
                     ops = ["sq:-"]
         yield "hist %s %s %s %s" % (f, t, hx(b), " ".join(ops))
+    # `..` consumes the head of the path and what becomes first needs a shield (a `:` in it, or empty)
+    for b in ["x/../1:b", "x/y/../../é:b", "s:/a/..//b:c", "a/../:x", "./x/../a:b", "x/../a:b/c", "s:x/..//a", "a/b/../../c:d?q#f",
+              "//h/a/..//b", "s:a/../..//x", "x/./../:"]:
+        for op in ["pm[norm]", "pm[norm;pop]", "pm[spush:%s;norm]" % hx("."), "res:" + hx("s://h/p/q"), "res:" + hx("s:p/q"), "res:" + hx("s:/p"),
+                   "pm[norm] ss:" + ohx(None), "sa:" + ohx(None) + " pm[norm]"]:
+            f = "u" if b.isascii() else "i"
+            yield "hist %s ref %s %s" % (f, hx(b), op)
+            if f == "u":
+                yield "hist i ref %s %s" % (hx(b), op)
     # every kind of single edit on the references built around the dictionary
     for b in dict_focus():
         for op in DICT_EDITS:
@@ -897,7 +908,10 @@ def stream_cmp(rng, tier):
     refs += ["s:a?z", "s:b?y", "s:a#z", "s:b#y", "s://h/a?z", "s://h/b?y", "s://g/a?z#1", "s://h/a?y#2"]
     # two components that order the pair in opposite directions: every adjacent pair of components
     opp = [("a:b?x#2", "a:b?y#1"), ("s://h/p#b", "s://h/p?q#a"), ("s://g/b", "s://h/a"), ("s://h:2/a", "s://h:1/b"),
-           ("s://u@h/b", "s://v@h/a"), ("a://z", "b://y"), ("s://h/a?2", "s://h/b?1"), ("s:a#2", "s:b#1"), ("s://g?2", "s://h?1")]
+           ("s://u@h/b", "s://v@h/a"), ("a://z", "b://y"), ("s://h/a?2", "s://h/b?1"), ("s:a#2", "s:b#1"), ("s://g?2", "s://h?1"),
+           # one path is the other plus one, two, three segments
+           ("s:/a/b", "s:/a"), ("s://e/a", "s://e/"), ("s:a/b", "s:a"), ("s:x", "s:"), ("s:/a/b/c", "s:/a"), ("s:/a/b/c/d", "s:/a"),
+           ("s://e/a/b", "s://e/a/"), ("s:/a/", "s:/a")]
     for a, b in opp:
         for x, y in [(a, b), (b, a)]:
             for f in "ui":
@@ -1245,7 +1259,10 @@ def stream_convert(rng, tier):
             yield "cmp u %s %s %s" % (kind, hx(x), hx(y))
             yield "cmp i %s %s %s" % (kind, hx(x), hx(y))
     opp = [("a:b?x#2", "a:b?y#1"), ("s://h/p#b", "s://h/p?q#a"), ("s://g/b", "s://h/a"), ("s://h:2/a", "s://h:1/b"),
-           ("s://u@h/b", "s://v@h/a"), ("a://z", "b://y"), ("s://h/a?2", "s://h/b?1"), ("s:a#2", "s:b#1"), ("s://g?2", "s://h?1")]
+           ("s://u@h/b", "s://v@h/a"), ("a://z", "b://y"), ("s://h/a?2", "s://h/b?1"), ("s:a#2", "s:b#1"), ("s://g?2", "s://h?1"),
+           # one path is the other plus one, two, three segments
+           ("s:/a/b", "s:/a"), ("s://e/a", "s://e/"), ("s:a/b", "s:a"), ("s:x", "s:"), ("s:/a/b/c", "s:/a"), ("s:/a/b/c/d", "s:/a"),
+           ("s://e/a/b", "s://e/a/"), ("s:/a/", "s:/a")]
     # relativisation, suffix and resolution on the references built around the dictionary, both families
     foc = dict_focus(16)
     for i, a in enumerate(foc):
@@ -1336,6 +1353,15 @@ def stream_routes(rng, tier):
                 yield "ctor %s %s" % (kind, hx(r))
         for _ in range(n):
             yield "ctor %s %s" % (kind, hx(rand_ref(rng, rng.choice("ui"))))
+    # the borrowed and owned conversions between the eight types, one value after another in reused
+    # allocations (the harness also re-judges the same allocation holding another text of the same length)
+    for r in ["//example.org/ab?q", "a/bc", "s:xy", "/ab", "?qq", "#ff", "s://h/ab", "//example.org/abc?q9", "xy"]:
+        for k in ("uri", "uriref", "iri", "iriref"):
+            yield "convert %s %s" % (k, hx(r))
+    for _ in range(n):
+        r = rand_ref(rng, "u")
+        for k in ("uriref", "iriref"):
+            yield "convert %s %s" % (k, hx(r))
 
 
 DATA_MT = ["", "text/plain", "a", "image/png", "a#b", "a/b+c", "text/plain;charset=utf-8", "a;x=1", "é", "a b", "A.-_^!$&",
